@@ -45,7 +45,7 @@ fn selftest() -> Result<(), String> {
     let sb = t2::Sandbox::new(&w).map_err(|e| format!("sandbox: {e}"))?;
     let flags = vec!["--yaml".to_string()];
     let run = |e: u64, plan: &[String]| {
-        t2::run_rva(&t2::RvaCall { sandbox: &sb, base: "base.s", flags: &flags, entropy: e, plan, profile: "dev", force_color: false, cpu_seconds: 10, raw_base: None, stdout_fault: None, fifos: vec![] }).map_err(|e| format!("spawn sim-rva: {e}"))
+        t2::run_rva(&t2::RvaCall { sandbox: &sb, base: "base.s", flags: &flags, entropy: e, plan, profile: "dev", force_color: false, cpu_seconds: 10, raw_base: None, stdout_fault: None, fifos: vec![], arg_style: 0 }).map_err(|e| format!("spawn sim-rva: {e}"))
     };
     let (x, y) = (run(11, &[])?, run(11, &[])?);
     if x.abnormal().is_some() {
